@@ -15,9 +15,9 @@ for path,struct in [('src/eval.rs','Evaluator'),('src/lookup.rs','LookupTable'),
     s=open(path).read()
     s=re.sub(r'(pub struct %s \{\n)'%struct, r'\1    pub nosync: std::marker::PhantomData<std::cell::Cell<()>>,\n', s, count=1)
     # first `Self {` after `pub fn new` / `pub fn init` of that impl
-    i=s.index('impl %s'%struct)
-    j=s.index('Self {', i)
-    s=s[:j]+'Self {\n            nosync: std::marker::PhantomData,'+s[j+len('Self {'):]
+    i=s.index('impl %s {'%struct)
+    j=re.compile(r'^\s+Self \{$', re.M).search(s, i).end()
+    s=s[:j]+'\n            nosync: std::marker::PhantomData,'+s[j:]
     open(path,'w').write(s)
 PY
 CARGO_NET_OFFLINE=true cargo build --offline --quiet
